@@ -223,8 +223,6 @@ package geom
 //@   trusted
 //@ func multiPolygonFromCoords
 //@   trusted
-//@ func getLine
-//@   trusted
 //@ func nextLine
 //@   trusted
 //@ func previousLine
